@@ -404,9 +404,13 @@ class Header(Field):
                 return 5
 
         else:
-            # old-format length
-            ##TODO: what if _llen needs to be (re)computed?
-            return self._llen
+            # old-format length: never report a field narrower than the current length needs
+            # (the body may have grown since the header was parsed); 0 means indeterminate length
+            if self._llen == 0:
+                return 0
+
+            needed = 1 if 256 > self.length else 2 if 65536 > self.length else 4
+            return max(self._llen, needed)
 
     @llen.register(int)
     def llen_int(self, val):
